@@ -4,6 +4,9 @@
 package keys
 
 import (
+	"crypto/elliptic"
+	"crypto/ecdsa"
+	"crypto"
 	"crypto/rand"
 	"crypto/rsa"
 	"crypto/x509"
@@ -137,6 +140,41 @@ func Mint(subjectKey *Key, caKey *Key, issuer pkix.Name, serial *big.Int, subj s
 		KeyUsage: x509.KeyUsageDigitalSignature, ExtKeyUsage: []x509.ExtKeyUsage{x509.ExtKeyUsageCodeSigning},
 	}
 	der, err := x509.CreateCertificate(rand.Reader, tmpl, parent, &subjectKey.Priv.PublicKey, caKey.Priv)
+	if err != nil {
+		return nil, fmt.Errorf("mint: %w", err)
+	}
+	return x509.ParseCertificate(der)
+}
+
+var (
+	ecOnce sync.Once
+	ecCA   *ecdsa.PrivateKey
+)
+
+// ECCA is a process-wide ECDSA P-256 key that plays a certification authority of another key
+// type than the leaf it issues.
+func ECCA() *ecdsa.PrivateKey {
+	ecOnce.Do(func() {
+		k, err := ecdsa.GenerateKey(elliptic.P256(), rand.Reader)
+		if err != nil {
+			panic(err)
+		}
+		ecCA = k
+	})
+	return ecCA
+}
+
+// MintVia mints a leaf for any public key, issued (signed) by any signer under the given issuer name.
+func MintVia(subjectPub any, ca crypto.Signer, issuer pkix.Name, serial *big.Int, subj string) (*x509.Certificate, error) {
+	parent := &x509.Certificate{
+		SerialNumber: big.NewInt(1), Subject: issuer, NotBefore: notBefore, NotAfter: notAfter,
+		IsCA: true, BasicConstraintsValid: true, KeyUsage: x509.KeyUsageCertSign,
+	}
+	tmpl := &x509.Certificate{
+		SerialNumber: serial, Subject: pkix.Name{CommonName: subj}, NotBefore: notBefore, NotAfter: notAfter,
+		KeyUsage: x509.KeyUsageDigitalSignature, ExtKeyUsage: []x509.ExtKeyUsage{x509.ExtKeyUsageCodeSigning},
+	}
+	der, err := x509.CreateCertificate(rand.Reader, tmpl, parent, subjectPub, ca)
 	if err != nil {
 		return nil, fmt.Errorf("mint: %w", err)
 	}
